@@ -311,13 +311,27 @@ class Check(PropertyCheck):
         cases = []
 
         def base_list(fmt, n):
-            return [dict(rng.choice(OK_POOL[fmt])) for _ in range(n)]
+            items = [dict(rng.choice(OK_POOL[fmt])) for _ in range(n)]
+            if fmt == 'fits' and n >= 2 and rng.random() < 0.35:
+                # explicit FITS component numbers that are NOT ascending (descending, or only on a later row):
+                # the file must hold the rows in the order of the serialised table
+                if rng.random() < 0.5:
+                    for i, it in enumerate(items):
+                        it['component'] = n - i
+                else:
+                    items[-1]['component'] = 1
+            return items
 
         def mk(fmt, state, ow, inj='none', opts=None, n=None, pos=None, api=None, name=None, fmt_arg='given', npos=1):
             n = rng.randint(0, 3) if n is None else n
             if INJECT.get(inj, {}).get('ctx') and n == 0:
                 n, pos = 1, (None if pos is None else min(pos, 1))
             items = base_list(fmt, n)
+            if inj == 'badcomp':
+                # the clashing component is probed beside AUTO-numbered rows only (beside rows that all carry explicit
+                # numbers nothing is combined and the invalid value is written out as it is: outside this check's domain)
+                for it in items:
+                    it.pop('component', None)
             positions = []
             if inj not in ('none', 'opts', 'goodopts'):
                 for _ in range(npos):
